@@ -20,7 +20,10 @@ def check(an, rep, tier):
         'non-negative (maximum(.,0) / squares) and divided by its own sum, '
         'and its length is the population size; S-einsum the marginal / '
         'conditional contractions of sample() are dimension consistent for '
-        'symbolic ranks; O-pivot sample_square orthogonalises to core 0, reads '
+        'symbolic ranks; L-lin every operand of the marginal / conditional '
+        'contractions is a linear function of the cores (clipping, absolute '
+        'values and squares appear only on the final probability vector); '
+        'O-pivot sample_square orthogonalises to core 0, reads '
         'the first squared row norms from core 0 and sweeps right over '
         'right-orthogonal cores; P-lhs the Latin-hypercube remainder is drawn '
         'without replacement and the per-mode column has length m.',
@@ -34,7 +37,8 @@ def check(an, rep, tier):
           'sample.sample_tt.one_mode', 'sample._sample_core_first',
           'sample._extend_core'}
     runs = sweep(an, rep, SAMPLERS, ds,
-                 rules=S_RULES + ['N-prob', 'R-draw', 'R-global'], wheres=wh)
+                 rules=S_RULES + ['N-prob', 'R-draw', 'R-global', 'L-lin'],
+                 wheres=wh)
     # --- result kinds
     for r in runs:
         if r.qualname == 'sample.sample_tt':
@@ -153,6 +157,7 @@ def check(an, rep, tier):
                     'ok' if ok else 'violation',
                     '' if ok else 'cores right of pivot 0 must be right-'
                     'orthogonal and the pivot core must carry the weights')
+    rep.floor('L-lin', 4, 'contractions with linear operands')
     rep.floor('N-prob', 4, 'choice(p=...) sites')
     rep.floor('S-ret', 8, 'sampler results')
     rep.floor('S-einsum', 2, 'marginal / conditional contractions')
